@@ -160,6 +160,11 @@ pub fn run_case(w: &mut dyn Write, r: &mut Rng, ci: usize, cname: &str, cfg: &Ci
     writeln!(w, "c08 {ci} {cname} positive honest = {ok} # {desc} rows={} sldc_polys={} outputs_ok={} pis_ok={} satisfied={} verify={} {}",
              circ.n, nsldc, outputs_ok, pis_ok, sat.unwrap_or("yes".into()), out, det).unwrap();
     let mut n = 1;
+    // the committed lookup selector columns against their specification, and against the model
+    let selv = circ.lookup_selector_violation();
+    writeln!(w, "c08 {ci} {cname} positive lookup-selectors = {} # {desc} {}", selv.is_none() as u8, selv.unwrap_or("as specified".into())).unwrap();
+    n += 1;
+    if circ.n <= 256 { if let Some(l) = circ.lksel_line() { writeln!(w, "{l}").unwrap(); n += 1; } }
     if ok == 0 { return n; }
     // the public prover on the same inputs
     let pub_ok = match catch_unwind(AssertUnwindSafe(|| circ.data.prove(circ.inputs_witness(p)))) {
@@ -195,6 +200,24 @@ pub fn run_case(w: &mut dyn Write, r: &mut Rng, ci: usize, cname: &str, cfg: &Ci
         n += neg(w, r, ci, cname, &circ, p, &m0, &pis0, "altered-output", &mk(1, vec![(row, cout, wrong)]), &s);
         n += neg(w, r, ci, cname, &circ, p, &m0, &pis0, "altered-output-cell", &mk(0, vec![(row, cout, wrong)]), &["ignore-checks", "sldc-shift"]);
         n += neg(w, r, ci, cname, &circ, p, &m0, &pis0, "altered-output-preset", &mk(2, vec![(row, cout, wrong)]), &["ignore-checks", "sldc-shift"]);
+        // the same forged output with the balancing constant entering the running sums at row x, for
+        // the rows x of this table's region (all of them when there are few, else the boundary rows and
+        // a sample): every transition constraint except the ones evaluated on row x holds, so the proof
+        // must be rejected because of row x - this is what each row's TransSre / TransLdc selector is for
+        {
+            let lw = circ.data.prover_only.lookup_rows[k].clone();
+            let all: Vec<usize> = (lw.last_lu_gate..=lw.first_lut_gate).collect();
+            let cap = if thorough { 24 } else { 7 };
+            let mut rows: Vec<usize> = if all.len() <= cap { all.clone() } else {
+                let mut v = vec![lw.last_lu_gate, lw.last_lu_gate + 1, lw.last_lut_gate - 1, lw.last_lut_gate, lw.first_lut_gate];
+                while v.len() < cap { v.push(*r.pick(&all)); }
+                v
+            };
+            rows.sort(); rows.dedup();
+            let names: Vec<String> = rows.iter().map(|x| format!("sldc-jump@{x}")).collect();
+            let refs: Vec<&str> = names.iter().map(|x| x.as_str()).collect();
+            n += neg(w, r, ci, cname, &circ, p, &m0, &pis0, "altered-output-cell", &mk(0, vec![(row, cout, wrong)]), &refs);
+        }
         // input outside the table
         let mut outside = r.below(65536);
         while table.iter().any(|(i, _)| *i as u64 == outside) { outside = (outside + 1) % 65536; }
